@@ -108,3 +108,18 @@ CLAIMS["C10"] = {
             "Any two different outputs (code bytes, diagnostics, outcome) is a violation. A per-process nondeterminism with probability p is missed with probability (1-p)^k.",
     "note": "Only nondeterminism that manifests on the generated projects within k runs is seen; the workload is aimed at the places where hash-map iteration could reach the output (namespace typeof, hoist numbering, discriminator choice).",
 }
+
+# ------------------------------------------------------------------------------------------ C08
+SPEC["C08"] = {
+    "engine": "node",
+    "rule": "cases = (program, composition of 1-5 rewrites from the catalog of DESIGN.md appendix B): union/intersection/property/declaration permutation, alias introduce / inline / rename, identity-generic wrapping, "
+            "parentheses, readonly, comments and JSDoc, interface<->alias, extends<->intersection, nested literal unions; evaluations = parsers compared (verdict vector over the shared pool + hash256). "
+            "distinct_nontrivial = distinct (applied rewrite set, parser shapes) combinations",
+    "floor": {"quick": 2000, "thorough": 50000},
+}
+CLAIMS["C08"] = {
+    "technique": "metamorphic runtime monitor: two spellings of one program compiled by the real compiler, validators compared on a shared value pool and by hash256; failing rewrite sequences minimised by re-execution",
+    "text": "For every generated program, compositions of catalogued meaning-preserving rewrites are applied to the source AST; original and rewritten program are compiled and every parser pair must give the same "
+            "validate() verdict on every pool value and, for the naming/ordering/comment rewrites, the same hash256(). Held = no difference outside recorded known findings.",
+    "note": "The rewrite catalog (js/gen/rewrite.mjs) is the trusted part: each rewrite yields the identical TypeScript type. No membership oracle is involved. Strict mode is not compared (C11's known finding depends on alias boundaries).",
+}
